@@ -81,5 +81,13 @@ func (s *Aggregate) VerifySyncInfo(syncInfo hotstuff.SyncInfo) (qc *hotstuff.Quo
 		}
 		return &highQC, view, timeout, nil
 	}
-	return nil, view, timeout, nil // aggregate quorum certificate not present, so no high QC available
+	if quorumCert, haveQC := syncInfo.QC(); haveQC {
+		// A plain quorum certificate (from a proposal or from the vote collector) does not end a view under
+		// this rule, but it is still the highest certified block the replica must build on and report.
+		if err := s.auth.VerifyQuorumCert(quorumCert); err != nil {
+			return nil, 0, timeout, fmt.Errorf("failed to verify quorum certificate: %w", err)
+		}
+		return &quorumCert, view, timeout, nil
+	}
+	return nil, view, timeout, nil // neither aggregate nor plain quorum certificate present, so no high QC available
 }
